@@ -10,8 +10,12 @@ package main
 // The oracle is an orchestrator: every scenario runs in a child process of the same binary
 // (`oracle C14 --arg child:<scenario>`), so that a fatal "concurrent map read and map write" (which cannot be
 // recovered) kills only that scenario and is reported as a failure of it. The race detector's reports of a child
-// are read from its stderr, or from $VERIF_RACE_DIR/race.<pid> when VERIF_RACE_DIR is set, and turned into
-// failures of kind "race" whose site is the pair of top plush frames of the two conflicting accesses.
+// are read from its stderr and turned into failures of kind "race" whose site is the pair of top plush frames of
+// the two conflicting accesses. In scenarios (a) and (b, mode same) the child writes a marker line to its stderr before every case,
+// so that a report is attributed to the (template, data, G) during whose execution it was printed; that case
+// can be replayed alone (--arg '<scenario> :: G=.. env=.. tmpl=".."'). Because a failure seen during one case may
+// depend on what earlier cases left behind in the process, the orchestrator runs up to three such cases per failing
+// scenario again, alone; what shows there is reported with the case as its replay, the rest with the scenario.
 // With VERIF_C14_INPROCESS=1 (or if the binary cannot re-execute itself) the scenarios run sequentially in this
 // process instead; race reports are then only seen through $VERIF_RACE_DIR/race.* and a fatal error ends the run.
 
@@ -107,6 +111,8 @@ type c14Run struct {
 	mu    sync.Mutex // guards rep inside a scenario
 	start time.Time
 	limit time.Duration
+	marks bool     // write case markers to stderr (scenario process)
+	only  *c14Only // replay: the one case of scenario (a) or (b, mode same) to run
 }
 
 func (x *c14Run) fail(detail, kind, site, what string) {
@@ -127,7 +133,7 @@ func (x *c14Run) over() bool { return time.Since(x.start) > x.limit }
 // parent and everything stateful (tick, the Go iterator, gid) is set on the child, which only goroutine j uses.
 func c14Ctx(env string, parent *plush.Context, j int) *plush.Context {
 	if parent == nil {
-		d := c13EnvShared(env)
+		d := c14Shared(env)
 		for k, v := range c13EnvLocal(env, j) {
 			d[k] = v
 		}
@@ -154,7 +160,7 @@ func c14Case(env, src string, g int) string {
 func c14Reference(t *plush.Template, env string, child bool, g int) ([]string, bool) {
 	var parent *plush.Context
 	if child {
-		parent = plush.NewContextWith(c13EnvShared(env))
+		parent = plush.NewContextWith(c14Shared(env))
 	}
 	want := make([]string, g)
 	for j := 0; j < g; j++ {
@@ -173,41 +179,117 @@ func c14Reference(t *plush.Template, env string, child bool, g int) ([]string, b
 	return want, true
 }
 
+// c14Marker starts a line on the scenario process's stderr that says which case runs from here on. The race
+// detector prints a report at the moment it sees the second access, so the reports between two markers belong to
+// the case named by the first one.
+const c14Marker = "C14-CASE "
+
+func (x *c14Run) mark(cs string) {
+	if x.marks {
+		os.Stderr.WriteString("\n" + c14Marker + cs + "\n")
+	}
+}
+
+// c14Only is the single case of scenario (a) that a replay asks for.
+type c14Only struct {
+	g   int
+	env string
+	src string
+}
+
+func c14ParseOnly(detail string) (*c14Only, bool) {
+	var o c14Only
+	i := strings.Index(detail, " tmpl=")
+	if i < 0 {
+		return nil, false
+	}
+	if _, err := fmt.Sscanf(detail[:i], "G=%d env=%s", &o.g, &o.env); err != nil || o.g < 1 || o.g > 64 {
+		return nil, false
+	}
+	src, err := strconv.Unquote(strings.TrimSpace(detail[i+len(" tmpl="):]))
+	if err != nil {
+		return nil, false
+	}
+	o.src = src
+	return &o, true
+}
+
 // scenario (a): one template, G goroutines, separate contexts
 func (x *c14Run) scenarioA(sp c14Spec, rng *Rng) {
 	child := sp.kv["ctx"] == "child"
 	cacheOn := sp.kv["cache"] == "on"
-	gen := c13NewGen(rng.Fork(1), c13GenOpt{NoHashEffects: true, NoSharedWrites: true})
-	n := x.cfg.N(70, 220)
-	reps := 2
 	plush.CacheEnabled = cacheOn
 	plush.VerifCacheReset()
 	defer func() { plush.CacheEnabled = false; plush.VerifCacheReset() }()
+	if x.only != nil {
+		// replay of one case: the same template, data and number of goroutines, a few times over
+		for i := 0; i < 6 && !x.over(); i++ {
+			if cacheOn && i%2 == 0 {
+				plush.VerifCacheReset()
+			}
+			x.oneA(x.only.src, x.only.env, x.only.g, nil, child, cacheOn)
+		}
+		return
+	}
+	gen := c13NewGen(rng.Fork(1), c13GenOpt{NoHashEffects: true, NoSharedWrites: true})
+	n := x.cfg.N(70, 220)
 	for i := 0; i < n && !x.over(); i++ {
 		src, kinds := gen.Program()
 		env := c13EnvNames[i%len(c13EnvNames)]
 		g := c14Gs[i%len(c14Gs)]
+		x.oneA(src, env, g, kinds, child, cacheOn)
+	}
+	// the shape programs: every list-bearing construct at the lengths 0..9, 12, 17, at rotating positions
+	si := 0
+	if child {
+		si += 2
+	}
+	if cacheOn {
+		si++
+	}
+	pi := map[int]int{4: 1, 16: 2}[sp.int("P", 0)]
+	sr := rng.Fork(3)
+	for i, sh := range c14ShapeList(x.cfg, si, pi) {
+		if x.over() {
+			break
+		}
+		src := c14ShapeProgram(sr.Fork(uint64(i)), sh)
+		env := c13EnvNames[(i+si)%len(c13EnvNames)]
+		g := c14Gs[(i+si)%len(c14Gs)]
+		x.oneA(src, env, g, []string{"shape:" + sh.fam, "shape-len:" + strconv.Itoa(sh.k), "shape-at:" + sh.pos}, child, cacheOn)
+	}
+}
+
+// oneA runs one case of scenario (a).
+func (x *c14Run) oneA(src, env string, g int, kinds []string, child, cacheOn bool) {
+	reps := 2
+	{
 		cs := c14Case(env, src, g)
+		x.mark(cs)
 		t, err := plush.Parse(src) // with the cache on this also fills the cache
 		if err != nil {
 			x.rep.Count(cs, false)
 			x.tag("parse-error")
-			continue
+			return
 		}
 		want, ok := c14Reference(t, env, child, g)
 		if !ok {
 			x.rep.Count(cs, false)
 			x.tag("skipped-not-deterministic-alone")
-			continue
+			return
 		}
 		x.rep.Count(cs, true)
 		for _, k := range kinds {
-			x.tag("has:" + k)
+			if strings.HasPrefix(k, "shape") {
+				x.tag(k)
+			} else {
+				x.tag("has:" + k)
+			}
 		}
 		x.tag(want[0][:strings.Index(want[0], ":")+1] + "outcome")
 		var parent *plush.Context
 		if child {
-			parent = plush.NewContextWith(c13EnvShared(env))
+			parent = plush.NewContextWith(c14Shared(env))
 		}
 		var wg sync.WaitGroup
 		gate := make(chan struct{})
@@ -257,6 +339,22 @@ func (x *c14Run) scenarioB(sp c14Spec, rng *Rng) {
 	var pool []item
 	n := x.cfg.N(100, 300)
 	plush.CacheEnabled = false
+	if x.only != nil {
+		// replay of one case of mode "same": that input alone, a few times over, each time not yet cached
+		n = 0
+		var want string
+		if t, err := plush.NewTemplate(x.only.src); err != nil {
+			want = c13Canon(Obs{Err: err})
+		} else if w, ok := c14Reference(t, x.only.env, false, 1); ok {
+			want = w[0]
+		} else {
+			x.rep.Notes = append(x.rep.Notes, "the case is not deterministic when run alone")
+			return
+		}
+		for i := 0; i < 6; i++ {
+			pool = append(pool, item{x.only.src, x.only.env, want})
+		}
+	}
 	for i := 0; len(pool) < n && i < 4*n; i++ {
 		src, _ := gen.Program()
 		env := c13EnvNames[i%len(c13EnvNames)]
@@ -273,6 +371,26 @@ func (x *c14Run) scenarioB(sp c14Spec, rng *Rng) {
 			want = w[0]
 		}
 		pool = append(pool, item{src, env, want})
+	}
+	if sp.kv["mode"] == "same" && x.only == nil {
+		// shape programs (long lists in the tree) are parsed and rendered concurrently too: every fourth one, all in
+		// the thorough tier
+		sr := rng.Fork(3)
+		for i, sh := range c14ShapeList(Config{Tier: "thorough", Seed: x.cfg.Seed}, 1, 0) {
+			if !x.cfg.Thorough() && (i+int(x.cfg.Seed))%4 != 0 {
+				continue
+			}
+			src := c14ShapeProgram(sr.Fork(uint64(i)), sh)
+			env := c13EnvNames[i%len(c13EnvNames)]
+			t, err := plush.NewTemplate(src)
+			if err != nil {
+				continue
+			}
+			if w, ok := c14Reference(t, env, false, 1); ok {
+				pool = append(pool, item{src, env, w[0]})
+				x.tag("shape:" + sh.fam)
+			}
+		}
 	}
 	plush.CacheEnabled = true
 	plush.VerifCacheReset()
@@ -324,6 +442,11 @@ func (x *c14Run) scenarioB(sp c14Spec, rng *Rng) {
 				break
 			}
 			g := c14Gs[i%len(c14Gs)]
+			if x.only != nil {
+				g = x.only.g
+				plush.VerifCacheReset()
+			}
+			x.mark(c14Case(it.env, it.src, g))
 			x.rep.Count(c14Case(it.env, it.src, g), true)
 			x.tag(it.want[:strings.Index(it.want, ":")+1] + "outcome")
 			var wg sync.WaitGroup
@@ -500,17 +623,30 @@ func (x *c14Run) scenarioC(sp c14Spec, rng *Rng) {
 	}
 }
 
-func c14RunScenario(name string, cfg Config, rep *Report) {
+func c14RunScenario(name string, cfg Config, rep *Report, marks bool) {
+	detail := ""
+	if i := strings.Index(name, " :: "); i >= 0 {
+		name, detail = strings.TrimSpace(name[:i]), name[i+len(" :: "):]
+	}
 	sp, ok := c14ParseSpec(name)
 	if !ok {
 		rep.Notes = append(rep.Notes, "unknown scenario "+name)
 		return
 	}
+	var only *c14Only
+	if (sp.kind == "a" || sp.kind == "b" && sp.kv["mode"] == "same") && detail != "" {
+		// a failure of scenario (a) or (b, mode same) names its case: replay that case alone (other scenarios: the
+		// whole scenario)
+		if only, ok = c14ParseOnly(detail); !ok {
+			rep.Notes = append(rep.Notes, "cannot read the case "+strconv.Quote(detail)+" of scenario "+name)
+			return
+		}
+	}
 	if p := sp.int("P", 0); p > 0 {
 		runtime.GOMAXPROCS(p)
 	}
 	lim := time.Duration(cfg.N(20, 60)) * time.Second
-	x := &c14Run{rep: rep, cfg: cfg, name: name, start: time.Now(), limit: lim}
+	x := &c14Run{rep: rep, cfg: cfg, name: name, start: time.Now(), limit: lim, marks: marks, only: only}
 	// the inputs depend on the seed and on the scenario kind, not on P: the same programs under every P
 	rng := NewRng(cfg.Seed).Fork(14).Fork(uint64(sp.kind[0]) + uint64(len(sp.kv["ctx"])+3*len(sp.kv["cache"])+5*len(sp.kv["mode"])))
 	switch sp.kind {
@@ -706,26 +842,25 @@ func c14Orchestrate(cfg Config, rep *Report, names []string) {
 		return sb.String()
 	}
 	races := 0
+	dup := map[string]bool{} // one failure per (case, site): the same pair of accesses is often reported many times
 	addRaces := func(name, text string) {
 		for _, r := range c14ParseRaces(text) {
 			races++
 			rep.Tag("race-report")
+			if dup[name+"\x00race"+r.site] {
+				continue
+			}
+			dup[name+"\x00race"+r.site] = true
 			rep.Fail(Failure{Case: name, Kind: "race", Site: r.site, What: r.what})
 		}
 	}
-	for _, name := range names {
-		if err != nil {
-			// cannot re-execute ourselves: run in this process (a fatal runtime error then ends the whole run)
-			c14RunScenario(name, cfg, rep)
-			addRaces(name, newLogText())
-			continue
-		}
+	// runChild runs one scenario (or one case of it) in a process of its own
+	runChild := func(name string) (reps []*Report, text string, runErr error, timedOut bool) {
 		ctx, cancel := context.WithTimeout(context.Background(), time.Duration(cfg.N(60, 150))*time.Second)
+		defer cancel()
 		cmd := exec.CommandContext(ctx, exe, "oracle", "C14", "--tier", cfg.Tier, "--seed", strconv.FormatUint(cfg.Seed, 10), "--arg", "child:"+name)
+		// the scenario process reports races on its stderr (no log_path), in line with its case markers
 		gorace := "GORACE=halt_on_error=0 exitcode=0"
-		if raceDir != "" {
-			gorace += " log_path=" + filepath.Join(raceDir, "race")
-		}
 		for _, e := range os.Environ() {
 			if !strings.HasPrefix(e, "GORACE=") {
 				cmd.Env = append(cmd.Env, e)
@@ -734,22 +869,117 @@ func c14Orchestrate(cfg Config, rep *Report, names []string) {
 		cmd.Env = append(cmd.Env, gorace)
 		var so, se bytes.Buffer
 		cmd.Stdout, cmd.Stderr = &so, &se
-		runErr := cmd.Run()
-		timedOut := ctx.Err() != nil
-		cancel()
-		rep.Tag("scenario")
-		got := false
+		runErr = cmd.Run()
+		timedOut = ctx.Err() != nil
 		dec := json.NewDecoder(&so)
 		for {
 			var ch Report
 			if e := dec.Decode(&ch); e != nil {
 				break
 			}
-			got = true
-			c14Merge(rep, &ch)
+			reps = append(reps, &ch)
 		}
-		text := se.String() + newLogText()
-		addRaces(name, text)
+		return reps, se.String() + newLogText(), runErr, timedOut
+	}
+	replaying := cfg.Arg != ""
+	for _, name := range names {
+		if err != nil {
+			// cannot re-execute ourselves: run in this process (a fatal runtime error then ends the whole run)
+			c14RunScenario(name, cfg, rep, false)
+			addRaces(name, newLogText())
+			continue
+		}
+		chReps, text, runErr, timedOut := runChild(name)
+		rep.Tag("scenario")
+		got := len(chReps) > 0
+		// failures that name a case of the scenario, where a case can be run alone: (case, kind, site, what)
+		sp, _ := c14ParseSpec(name)
+		alone := sp.kind == "a" || sp.kind == "b" && sp.kv["mode"] == "same"
+		var pending []Failure
+		for _, ch := range chReps {
+			fs := ch.Failures
+			if !replaying {
+				ch.Failures = nil
+			}
+			c14Merge(rep, ch)
+			for _, f := range fs {
+				if replaying {
+					break
+				}
+				if alone {
+					pending = append(pending, f)
+				} else {
+					rep.Fail(f) // its replay is the whole scenario anyway
+				}
+			}
+		}
+		// the stderr of a scenario process is cut at the case markers: the reports after a marker belong to that case
+		segs := strings.Split(text, "\n"+c14Marker)
+		if replaying {
+			addRaces(name, text)
+		} else {
+			addRaces(name, segs[0])
+			for _, sg := range segs[1:] {
+				cs, body := sg, ""
+				if i := strings.Index(sg, "\n"); i >= 0 {
+					cs, body = sg[:i], sg[i+1:]
+				}
+				for _, r := range c14ParseRaces(body) {
+					races++
+					rep.Tag("race-report")
+					pending = append(pending, Failure{Case: name + " :: " + cs, Kind: "race", Site: r.site, What: r.what})
+				}
+			}
+		}
+		// A failure seen during one case may depend on what earlier cases left behind in the process. Up to three
+		// cases are therefore run again alone, each in a fresh process; what shows there is reported with the case as
+		// its replay, everything else with the scenario as its replay.
+		verified := map[string]bool{}
+		tried := map[string]bool{}
+		for n := 0; n < 3; n++ {
+			best := -1
+			for i, f := range pending {
+				if verified[f.Kind+"\x00"+f.Site] || tried[f.Case] || !strings.Contains(f.Case, " :: ") {
+					continue
+				}
+				if best < 0 || len(f.Case) < len(pending[best].Case) {
+					best = i
+				}
+			}
+			if best < 0 {
+				break
+			}
+			cs := pending[best].Case
+			tried[cs] = true
+			rep.Tag("case-replayed-alone")
+			rr, rtext, _, _ := runChild(cs)
+			var found []Failure
+			for _, ch := range rr {
+				found = append(found, ch.Failures...)
+			}
+			for _, r := range c14ParseRaces(rtext) {
+				found = append(found, Failure{Case: cs, Kind: "race", Site: r.site, What: r.what})
+			}
+			for _, f := range found {
+				f.Case = cs
+				if !dup[cs+"\x00"+f.Kind+f.Site] {
+					dup[cs+"\x00"+f.Kind+f.Site] = true
+					verified[f.Kind+"\x00"+f.Site] = true
+					rep.Fail(f)
+				}
+			}
+		}
+		for _, f := range pending {
+			if verified[f.Kind+"\x00"+f.Site] || dup[name+"\x00"+f.Kind+f.Site] {
+				continue
+			}
+			dup[name+"\x00"+f.Kind+f.Site] = true
+			detail := f.Case
+			if i := strings.Index(detail, " :: "); i >= 0 {
+				detail = detail[i+len(" :: "):]
+			}
+			rep.Fail(Failure{Case: name, Kind: f.Kind, Site: f.Site, What: f.What + " [seen in this scenario during the case " + c13Short(detail) + "]"})
+		}
 		switch {
 		case timedOut:
 			rep.Fail(Failure{Case: name, Kind: "hang", Site: "scenario-timeout", What: "the scenario's process did not finish and was killed"})
@@ -769,8 +999,6 @@ func c14Orchestrate(cfg Config, rep *Report, names []string) {
 	}
 	if !c14RaceEnabled {
 		rep.Notes = append(rep.Notes, "this binary was NOT built with -race: scenarios were run and their results compared with sequential execution, but no data race can be reported (build with: go build -race -tags verif -o harness_race .)")
-	} else if raceDir == "" && err == nil {
-		rep.Notes = append(rep.Notes, "VERIF_RACE_DIR not set: race reports were read from the stderr of the scenario processes")
 	} else if err != nil {
 		rep.Notes = append(rep.Notes, "scenarios ran in this process ("+err.Error()+"); race reports are only seen when VERIF_RACE_DIR and GORACE log_path=$VERIF_RACE_DIR/race are set by the caller")
 	}
@@ -780,21 +1008,18 @@ func c14Orchestrate(cfg Config, rep *Report, names []string) {
 func init() {
 	oracles["C14"] = func(cfg Config) []*Report {
 		rep := NewReport("C14", "C14", cfg)
-		rep.Rule = "scenarios, each in its own process, 2-32 goroutines: (a) one generated template (every construct; hash literals without side effects, no writes to shared data) parsed once or served from the cache, executed concurrently on own root contexts or on children of ONE shared parent, each result compared with the sequential result of the same (template, context); (b) concurrent Parse/Render of the same uncached input and of overlapping sets of inputs with the cache on; (c) Set/Value/Has/New mixes on ONE context and its child, once staggered in time (races without the fatal map check) and once at full contention. A case is one (scenario, template, data, G); race reports are bucketed by the top plush frames of the two accesses"
+		rep.Rule = "scenarios, each in its own process, 2-32 goroutines: (a) one generated template (every construct; hash literals without side effects, no writes to shared data; plus shape programs: every list-bearing construct - else-if chain, call arguments, parameters, array/hash elements, block statements, operator chains, nesting - at the lengths 0..9, 12, 17 and at every statement position) parsed once or served from the cache, executed concurrently on own root contexts or on children of ONE shared parent, each result compared with the sequential result of the same (template, context); (b) concurrent Parse/Render of the same uncached input and of overlapping sets of inputs with the cache on; (c) Set/Value/Has/New mixes on ONE context and its child, once staggered in time (races without the fatal map check) and once at full contention. A case is one (scenario, template, data, G); race reports are bucketed by the top plush frames of the two accesses"
 		if strings.HasPrefix(cfg.Arg, "child:") {
 			name := strings.TrimPrefix(cfg.Arg, "child:")
 			rep.Stream = "C14-child"
-			c14RunScenario(name, cfg, rep)
+			c14RunScenario(name, cfg, rep, true)
 			return []*Report{rep}
 		}
 		names := c14Scenarios(cfg)
 		if cfg.Arg != "" {
-			// replay: the scenario named at the start of a Failure.Case
-			name := cfg.Arg
-			if i := strings.Index(name, " :: "); i >= 0 {
-				name = name[:i]
-			}
-			names = []string{strings.TrimSpace(name)}
+			// replay: the scenario named at the start of a Failure.Case; for scenarios (a) and (b, mode same) the case
+			// after " :: " alone
+			names = []string{strings.TrimSpace(cfg.Arg)}
 		}
 		c14Orchestrate(cfg, rep, names)
 		return []*Report{rep}
